@@ -1865,7 +1865,7 @@ impl Engine for DomSim {
         let scripted = match index {
             0 => Some(Scripted::DeepChain { depth: if thorough { 100_000 } else { 30_000 } }),
             1 => Some(Scripted::Big { n: 6_000, seed: run_seed }),
-            2 => Some(Scripted::Big { n: if thorough { 70_000 } else { 9_000 }, seed: run_seed ^ 1 }),
+            2 => Some(Scripted::Big { n: if thorough { 140_000 } else { 70_000 }, seed: run_seed ^ 1 }),
             3 => Some(Scripted::DeepChain { depth: 4_100 }),
             _ => None,
         };
